@@ -4,17 +4,131 @@ from kernels import K
 _MATTUS = ['src/Matrix/AMatrixDense.cpp', 'src/Matrix/AMatrix.cpp', 'src/Matrix/MatrixRectangular.cpp',
            'src/Basic/VectorHelper.cpp', 'src/Basic/AStringable.cpp']
 
-# C11.a row/column scaling of a dense matrix, every shape 1..3 x 1..3
-for _nm, _shapes in (('square', ((1, 1), (2, 2), (3, 3))), ('wide', ((1, 2), (1, 3), (2, 3))), ('tall', ((2, 1), (3, 1), (3, 2)))):
-    _ents = []
-    for (_r, _c) in _shapes:
-        _ents += ['k_%s_%dx%d' % (_o, _r, _c) for _o in ('mulrow', 'mulcol', 'divrow', 'divcol', 'gmulrow', 'gmulcol', 'gdivrow', 'gdivcol')]
-    K('C11.a.' + _nm, property='C11', engine='symex', harness='C11/rowcol.cpp', entries=_ents, tus=_MATTUS,
-      defines={'all': {'VF_SHAPES(X)': ' '.join('X(%d,%d)' % s for s in _shapes)}},
-      bounds={'quick': 'MatrixRectangular of shapes %s; entries and vec integer-valued |v|<=1000 (divisors non-zero)' % (', '.join('%dx%d' % s for s in _shapes))},
-      timeout_ms={'quick': 60000, 'thorough': 600000}, validate={'quick': 10, 'thorough': 30}, validate_doubles='int', symex={'assume_no_ub': True},
-      what='AMatrixDense::multiplyRow/multiplyColumn/divideRow/divideColumn on a really constructed MatrixRectangular (Eigen storage): '
-           'R(i,j)=vec[i]*M(i,j) resp. vec[j]*M(i,j) (division likewise), shape unchanged, vec (exact documented length) not read out of bounds',
-      out='shapes above 3x3; rounding of 1/v and of the products (real-arithmetic reading)',
-      assumptions=['real-arithmetic reading: M*(1/v) == M/v'],
-      stubs=[])
+# C11.a row/column scaling of a dense matrix, every shape 1..3 x 1..3 (one build, one entry per shape and operation)
+_ALL = tuple((r, c) for r in (1, 2, 3) for c in (1, 2, 3))
+K('C11.a', property='C11', engine='symex', harness='C11/rowcol.cpp',
+  entries=['k_%s_%dx%d' % (_o, _r, _c) for (_r, _c) in _ALL for _o in ('mulrow', 'mulcol', 'divrow', 'divcol', 'gmulrow', 'gmulcol', 'gdivrow', 'gdivcol')],
+  tus=_MATTUS, defines={'all': {'VF_SHAPES(X)': ' '.join('X(%d,%d)' % s for s in _ALL)}},
+  bounds={'quick': 'MatrixRectangular of every shape nrows,ncols in 1..3 (square and non-square); entries and vec integer-valued |v|<=1000, divisors every non-zero integer in [-1000,1001]; '
+                   'vec allocated at exactly its documented length (nrows for the row operations, ncols for the column operations)'},
+  timeout_ms={'quick': 60000, 'thorough': 600000}, validate={'quick': 6, 'thorough': 30}, validate_doubles='int', symex={'assume_no_ub': True},
+  what='AMatrixDense::multiplyRow/multiplyColumn/divideRow/divideColumn (Eigen asDiagonal products) on a really constructed MatrixRectangular, and the generic '
+       'AMatrix::multiplyRow/... (qualified call): R(i,j)=vec[i]*M(i,j) resp. vec[j]*M(i,j) (division likewise), matrix and Eigen storage keep their shape, '
+       'vec is not modified and not read out of bounds',
+  out='shapes above 3x3; rounding of 1/v and of the products (real-arithmetic reading); symmetric and sparse storage',
+  assumptions=['real-arithmetic reading: M*(1/v) == M/v'],
+  stubs=[])
+
+# C11.c element-level operations
+_ELEMTUS = _MATTUS + ['src/Matrix/AMatrixSquare.cpp', 'src/Matrix/MatrixSquareSymmetric.cpp']
+_COMMON_OPS = ('setget', 'setrow', 'setcol', 'gsetrow', 'gsetcol', 'getrow', 'getcol', 'ggetrow', 'ggetcol', 'transpose', 'setvalues')
+def _elem(kid, shapes, syms, **kw):
+    ents = []
+    for (r, c) in shapes:
+        ents += ['k_%s_r%dx%d' % (o, r, c) for o in _COMMON_OPS + ('addrow', 'addcol', 'addrow2', 'addcol2')]
+        if r == c:
+            ents.append('k_setdiag_r%dx%d' % (r, c))
+    for n in syms:
+        ents += ['k_%s_s%d' % (o, n) for o in _COMMON_OPS + ('setdiag',)]
+    K(kid, property='C11', engine='symex', harness='C11/elem.cpp', entries=ents, tus=_ELEMTUS,
+      defines={'all': {'VF_SHAPES(X)': ' '.join('X(%d,%d)' % s for s in shapes),
+                       'VF_SQUARES(XD)': ' '.join('XD(%d)' % r for (r, c) in shapes if r == c),
+                       'VF_SYMS(Y)': ' '.join('Y(%d)' % n for n in syms)}},
+      timeout_ms={'quick': 60000, 'thorough': 600000}, validate={'quick': 10, 'thorough': 30}, validate_doubles='int',
+      out='shapes above 3x3; sparse storage; sample/createReduce',
+      assumptions=['initial content written directly to the Eigen buffer (column-major); integer-valued entries |v|<=1000 (values are only copied and compared)'],
+      stubs=['throw_exp(std::string const&, std::string const&, int): throws an int (real one formats through std::stringstream/std::cout)',
+             'messerr(const char*, ...): empty (real one formats a message through vsnprintf and prints it)'], **kw)
+_ELEMWHAT = ('setValue/getValue (with and without address checking), AMatrixDense::setRow/setColumn/getRow/getColumn and the generic '
+             'AMatrix::setRow/setColumn/getRow/getColumn (qualified calls), setDiagonal (square), transposeInPlace, setValues(byCol), %s: '
+             'every cell of the result equals its cell-level definition on the initial content, cells not addressed are unchanged, '
+             'shape bookkeeping (getNRows/getNCols and Eigen rows/cols) consistent%s')
+_elem('C11.c.rect', _ALL, (),
+      bounds={'quick': 'MatrixRectangular of every shape nrows,ncols in 1..3; row/column/cell index arbitrary in range (cell index also out of range when address checking is on); arbitrary content'},
+      what=_ELEMWHAT % ('MatrixRectangular::addRow/addColumn (1 or 2 lines added)', ''))
+_elem('C11.c.sym', (), (1, 2, 3),
+      bounds={'quick': 'MatrixSquareSymmetric of size 1..3, arbitrary symmetric content; indices as for C11.c.rect'},
+      what=_ELEMWHAT % ('on MatrixSquareSymmetric', '; the storage stays symmetric after every operation'))
+
+# C11.b products
+_PRODSTUBS = ['messerr(const char*, ...): empty (real one formats a message through vsnprintf and prints it)',
+              '__dynamic_cast (solver build only): returns its argument (all operands are MatrixRectangular, AMatrix base at offset 0, cast to AMatrixDense succeeds)']
+def _mv_entries(shapes):
+    e = []
+    for (r, c) in shapes:
+        e += ['k_mv%d_%dx%d_%s' % (f, r, c, t) for f in range(8) for t in 'nt'] + ['k_mvchk_%dx%d' % (r, c)]
+    return e
+# x is a x b, y is c x d, flags tx ty: all shapes with dimensions in 1..2, plus inner/outer dimension 3
+_MM = [(a, b, c, d, tx, ty) for a in (1, 2) for b in (1, 2) for c in (1, 2) for d in (1, 2) for tx in (0, 1) for ty in (0, 1)]
+_MM += [(2, 3, 3, 2, 0, 0), (3, 2, 3, 2, 1, 0), (2, 3, 2, 3, 0, 1), (3, 2, 2, 3, 1, 1), (1, 3, 3, 2, 0, 0), (2, 3, 3, 1, 0, 0),
+        (3, 2, 2, 3, 0, 0), (2, 3, 2, 3, 0, 0), (2, 3, 2, 3, 1, 0), (3, 2, 2, 3, 0, 1), (2, 3, 2, 2, 0, 0), (2, 2, 2, 3, 0, 0), (2, 2, 3, 2, 0, 0)]
+K('C11.b', property='C11', engine='symex', harness='C11/prod.cpp',
+  entries=_mv_entries(_ALL) + ['k_%s_%dx%d_%dx%d_%d%d' % ((g,) + z) for z in _MM for g in ('mm', 'gmm')], tus=_MATTUS,
+  defines={'all': {'VF_SHAPES(X)': ' '.join('X(%d,%d)' % s for s in _ALL), 'VF_MM(Z)': ' '.join('Z(%d,%d,%d,%d,%d,%d)' % z for z in _MM)}},
+  bounds={'quick': 'matrix x vector: MatrixRectangular of every shape nrows,ncols in 1..3, transpose flag false/true, x and y allocated at exactly the documented lengths, y with arbitrary initial content. '
+                   'matrix x matrix: x (a x b), y (c x d) for every a,b,c,d in 1..2 with the four transposition flag pairs (conformable or not), plus 13 shape/flag combinations with a '
+                   "dimension 3 (2x3x2, 3x2x3, 1x3x2, 2x3x1, non-conformable 2x3.2x3, 2x3.2x2, 2x2.3x2); 'this' pre-sized to the result shape. All entries integer-valued |v|<=100"},
+  timeout_ms={'quick': 60000, 'thorough': 600000}, validate={'quick': 5, 'thorough': 20}, validate_doubles='int',
+  symex={'assume_no_ub': True},
+  what='AMatrix::prodMatVecInPlace (VectorDouble and constvect/vect overloads), prodMatVecInPlacePtr, addProdMatVecInPlace, prodVecMatInPlace, '
+       'prodVecMatInPlacePtr with AMatrixDense::_prodMatVecInPlacePtr/_prodVecMatInPlacePtr/_addProdMatVecInPlaceToDestPtr (Eigen), '
+       'AMatrixDense::prodMatVec/prodVecMat: every output entry equals the defining sum, no access outside x/y, inputs unchanged; '
+       'with address checking on, the size checks accept exactly the conformable lengths and leave y untouched otherwise. '
+       'AMatrixDense::prodMatMatInPlace (Eigen products, all four transposition branches) and the generic AMatrix::prodMatMatInPlace '
+       '(qualified call): conformable shapes give R(i,j) = sum_k op(x)(i,k) op(y)(k,j) with the right shape; non-conformable shapes are refused '
+       "and leave 'this' untouched; operands unchanged; no out-of-bounds access",
+  out="shapes above 3x3 (products 2x3x2); 'this' not pre-sized to the result shape; operands aliasing 'this'; symmetric/sparse operands; prodNormMatMatInPlace; rounding (integer-valued data: all sums exact)",
+  assumptions=['real-arithmetic reading; on the integer grid |v|<=100 all products and sums are exact in IEEE as well'], stubs=_PRODSTUBS)
+
+# C11.e VectorHelper sorting/ranking helpers and reductions
+_VHTUS = ['src/Basic/VectorHelper.cpp', 'src/Basic/Utilities.cpp']
+_VHSTUBS = ['throw_exp(std::string const&, std::string const&, int): throws an int (real one formats through std::stringstream/std::cout)',
+            'operator new(size_t, std::nothrow_t const&): returns nullptr, so std::stable_sort (its only user, via std::get_temporary_buffer) runs the '
+            'buffer-less libstdc++ path (__inplace_stable_sort = insertion sort at these sizes); the buffered merge path needs memmove of data-dependent length (unsupported by the executor)']
+_SORTS = [(n, -1, 'n%d' % n) for n in range(0, 5)] + [(3, 2, 'n3s2'), (4, 2, 'n4s2'), (4, 3, 'n4s3'), (2, 1, 'n2s1')]
+_SORTOPS = ('orderD_%s_a', 'orderD_%s_d', 'orderI_%s_a', 'orderI_%s_d', 'sortranks_%s_a', 'sortranks_%s_d', 'arrD0_%s_a', 'arrD0_%s_d',
+            'arrD1_%s_a', 'arrI0_%s_a', 'arrI0_%s_d', 'arrI1_%s_a', 'uniqD_%s', 'uniqI_%s')
+_SORTBOUND = 'vectors of every length 0..4 with size=-1 (whole vector), plus (length,size) = (2,1),(3,2),(4,2),(4,3); arbitrary integer-valued content |v|<=1000 (ties included); ascending and descending'
+_ARR_THOROUGH = ('k_arrD0_n4_d', 'k_arrI0_n4_d')
+for _kid, _ops, _what in (
+        ('C11.e.order', _SORTOPS[0:6], 'VH::orderRanks (VectorDouble and VectorInt overloads; libstdc++ std::stable_sort executed) and VH::sortRanks: the result is a permutation of '
+                                       '0..size-1, vecin[order[i]] is ordered in the requested direction, ranks are order-consistent, input unchanged'),
+        ('C11.e.arrange', _SORTOPS[6:12], 'VH::arrangeInPlace (double and int value overloads, safe 0/1, with and without size; orderRanks/reorder/copy executed): ranks permuted by sorted value, '
+                                          'values travel with their ranks (safe=0) or are preserved (safe=1), both arrays keep their length and their part beyond size (documented)'),
+        ('C11.e.unique', _SORTOPS[12:14], 'VH::unique (VectorDouble/VectorInt; std::sort + std::unique executed): strictly ascending, same value set as the first size input values')):
+    K(_kid, property='C11', engine='symex', harness='C11/vh.cpp',
+      entries=[e for e in ['k_' + (o % t) for (n, sz, t) in _SORTS for o in _ops] if e not in _ARR_THOROUGH], tus=_VHTUS,
+      defines={'all': {'VF_SORTS(SORTS)': ' '.join('SORTS(%d,%d,%s)' % x for x in _SORTS)}},
+      bounds={'quick': _SORTBOUND},
+      timeout_ms={'quick': 60000, 'thorough': 600000}, validate={'quick': 8, 'thorough': 30}, validate_doubles='int',
+      what=_what, out='lengths above 4; NaN; stability of the order among ties (not documented); the buffered merge path of std::stable_sort',
+      assumptions=['comparison-only code: the real reading is exact for finite doubles'], stubs=_VHSTUBS)
+K('C11.e.arrange.n4d', property='C11', engine='symex', harness='C11/vh.cpp', entries=list(_ARR_THOROUGH), tus=_VHTUS, tiers=('thorough',),
+  defines={'all': {'VF_SORTS(SORTS)': 'SORTS(4,-1,n4)'}},
+  bounds={'thorough': 'length 4, size=-1, descending, safe=0 (the ascending variants and every shorter/partial case are in C11.e.arrange)'},
+  timeout_ms={'thorough': 600000}, validate={'thorough': 30}, validate_doubles='int',
+  what='VH::arrangeInPlace (double and int overloads), descending order on full vectors of length 4', out='see C11.e.arrange',
+  assumptions=['comparison-only code: the real reading is exact for finite doubles'], stubs=_VHSTUBS)
+K('C11.e.red', property='C11', engine='symex', harness='C11/vh.cpp',
+  entries=['k_%s_%d%s' % (o, n, sfx) for n in range(0, 5) for (o, sfx) in (('issorted', '_a'), ('issorted', '_d'), ('reduce', ''), ('sequence', ''))] +
+          ['k_%s_%d%s' % (o, n, sfx) for n in range(1, 4) for (o, sfx) in (('maxaux', '_m'), ('maxaux', '_z'), ('maxaux', '_p'), ('minaux', '_m'), ('minaux', '_z'), ('minaux', '_p'), ('extvv', ''))],
+  tus=_VHTUS,
+  defines={'all': {'VF_PERN(PERN)': ' '.join('PERN(%d)' % n for n in range(0, 5)), 'VF_AUXN(AUXN)': ' '.join('AUXN(%d)' % n for n in range(1, 4))}},
+  bounds={'quick': 'vectors of every length 0..4 (aux-conditional and vector-of-vectors extrema: 1..3); integer-valued content |v|<=1000, each double entry possibly undefined (TEST); flagAbs arbitrary'},
+  timeout_ms={'quick': 60000, 'thorough': 600000}, validate={'quick': 8, 'thorough': 30}, validate_doubles='int',
+  what='VH::isSorted, cumul (int/double/vector of vectors), count, sequence(int), whereMinimum, whereMaximum, maximum/minimum (VectorInt, VectorDouble with flagAbs, '
+       'conditional to aux with mode -1/0/+1, VectorVectorDouble): defined values, undefined (TEST) entries skipped',
+  out='lengths above 4; content beyond |v|<=1000 (the extrema start from +-1e30 / +-1e7 sentinels); ties vec==aux in conditional extrema; isSorted on ties; sequence(double)',
+  assumptions=['integer-valued doubles: sums exact'], stubs=_VHSTUBS)
+
+# C11.f VectorNumT<double> reductions and arithmetic (header-only)
+K('C11.f', property='C11', engine='symex', harness='C11/vnum.cpp',
+  entries=['k_%s_%d' % (o, n) for n in range(0, 5) for o in ('reduce', 'same', 'add', 'sub', 'mul', 'div', 'adds', 'subs', 'muls', 'divs')],
+  tus=[],
+  bounds={'quick': 'VectorDouble of every length 0..4, arbitrary integer-valued content |v|<=1000 (isSame: quarter-integers |v|<=10 and eps>=0); divisors non-zero'},
+  timeout_ms={'quick': 60000, 'thorough': 600000}, validate={'quick': 10, 'thorough': 30}, validate_doubles='int',
+  what='VectorNumT<double>::sum, mean, minimum, maximum, norm, innerProduct (incl. refusal of a length mismatch), isSame, add/subtract/multiply/divide '
+       '(vector and scalar right operand): defined value for every content, operands unchanged',
+  out='lengths above 4; rounding (real-arithmetic reading; sqrt as the exact non-negative root); NaN/inf entries; VectorNumT<int>',
+  assumptions=['real-arithmetic reading of the sums/products; the header documents no TEST handling for these methods, none is assumed'],
+  stubs=['abs(int) (solver build only): x < 0 ? -x : x (C library function; the unqualified abs calls of VectorNumT.hpp resolve to it)'])
